@@ -12,7 +12,6 @@ NOTES={('C14','c'):'Not detected, by design: whether the arguments of a wrong-ar
        ('C01','g'):'Not detected by C01, caught by C13 (initialiser-order): what a literal that writes one name twice means is not part of the grammar C01 pins; the change does break C13\'s source-order clause for the names written once.',
        ('C03','i'):'Not detected, by design: whether a body-level declaration collides with a parameter / the function\'s own name depends on whether the body is the activation scope or a block inside it, which C03\'s scope list does not settle; out of domain in the model from the start.',
        ('C06','j'):'Not detected, by design: no property says what ইনপুট does at end of input; the model refuses runs that read past the end.',
-       ('C19','i'):'Not detected by C19, caught by C09, C10 and C18 (mixed-script literals stop lexing): the part the demonstration shows — signed Bangla-digit *strings* no longer coerce — is not pinned by any property (which strings coerce to numbers is unspecified; only origin-independence and one-string-one-number are required, and both still hold).',
        ('C13','c'):'With this change the repository\'s own flaky (non-baseline) parser test Object_Literal fails intermittently; the 157 stable tests pass.'}
 for (p,x),m in res.items():
     d=f'{V}/seeded/{p}-{x}'
